@@ -9,7 +9,7 @@ TOOL = "verus"
 PROPS = ["C12", "C14", "C16"]
 RLIMIT = 150
 TRUSTED = ["verus 0.2026.09.13 + z3", "A-vstd (HashMap contains_key/remove/insert, Vec push)", "A-spec-hash-str (String as hash key)", "A-fmt (R4)",
-           "R16: `if let Some(v) = M.get_mut(K) { v.push(X) } else { E }` == `if M.contains_key(K) { let mut v = M.remove(K).unwrap(); v.push(X); M.insert(K.clone(), v) } else { E }` (HashMap semantics; get_mut is unsupported by Verus)"]
+           "R16: `if let Some(v) = M.get_mut(K) { B } else { E }` == `if M.contains_key(K) { let mut v = M.remove(K).unwrap(); B; M.insert(K.clone(), v) } else { E }` for a body B that uses v through push / contains only (HashMap semantics; get_mut is unsupported by Verus)"]
 
 SPECS = """
 use vstd::std_specs::hash::*;
@@ -20,6 +20,8 @@ pub proof fn axiom_string_key_model() ensures obeys_key_model::<String>() {}
 pub proof fn axiom_string_ext(a: String, b: String) ensures a@ == b@ ==> a == b {}
 #[verifier::external_body]
 pub fn string_of(s: &String) -> (r: String) ensures r@ == s@ { s.to_string() }
+#[verifier::external_body]
+pub fn vec_contains_string(v: &Vec<String>, x: &String) -> (r: bool) ensures r == (exists|i: int| 0 <= i < v@.len() && v@[i]@ == x@) { v.contains(x) }
 #[verifier::external_body]
 pub fn starts_with_supergame(s: &str) -> (r: bool) ensures r == is_supergame(s@) { s.starts_with("SuperGame") }      // R15 shim: a function of the text
 pub uninterp spec fn is_supergame(s: Seq<char>) -> bool;
@@ -50,14 +52,24 @@ pub open spec fn rest_same(a: &GeneratorState, b: &GeneratorState) -> bool {
     a.current_function == b.current_function && a.functions_call_tree == b.functions_call_tree && a.current_bank == b.current_bank
     && a.bankswitching_scheme == b.bankswitching_scheme && a.compiler_state == b.compiler_state
 }
-// the caller's entry after recording: what was there (or nothing) followed by the callee
+// the caller's entry after recording: it lists the callee, everything it listed before is still there, no other entry changed
+pub open spec fn lists(v: Seq<String>, name: Seq<char>) -> bool { exists|i: int| 0 <= i < v.len() && #[trigger] v[i]@ == name }
 pub open spec fn recorded(t0: Map<String, Vec<String>>, t1: Map<String, Vec<String>>, caller: String, callee: Seq<char>) -> bool {
     &&& t1.contains_key(caller)
-    &&& t1[caller]@.len() == (if t0.contains_key(caller) { t0[caller]@.len() } else { 0 }) + 1
-    &&& t1[caller]@[t1[caller]@.len() - 1]@ == callee
-    &&& (t0.contains_key(caller) ==> t1[caller]@.subrange(0, t0[caller]@.len() as int) =~= t0[caller]@)
+    &&& lists(t1[caller]@, callee)
+    &&& (t0.contains_key(caller) ==> forall|j: int| 0 <= j < t0[caller]@.len() ==> lists(t1[caller]@, #[trigger] t0[caller]@[j]@))
     &&& forall|k: String| k != caller ==> (t1.contains_key(k) == t0.contains_key(k) && (t0.contains_key(k) ==> t1[k] == t0[k]))
 }
+pub proof fn lemma_push_lists(v0: Seq<String>, v1: Seq<String>, x: String)
+    requires v1 == v0.push(x)
+    ensures lists(v1, x@), forall|j: int| 0 <= j < v0.len() ==> lists(v1, #[trigger] v0[j]@)
+{
+    assert(v1[v0.len() as int]@ == x@);
+    assert forall|j: int| 0 <= j < v0.len() implies lists(v1, #[trigger] v0[j]@) by { assert(v1[j]@ == v0[j]@); }
+}
+pub proof fn lemma_same_lists(v: Seq<String>)
+    ensures forall|j: int| 0 <= j < v.len() ==> lists(v, #[trigger] v[j]@)
+{ assert forall|j: int| 0 <= j < v.len() implies lists(v, #[trigger] v[j]@) by { assert(v[j]@ == v[j]@); } }
 """
 
 STUBS = """
@@ -94,13 +106,28 @@ def build(repo):
     common.r19_filter(blk)
     common.r14_map_or(blk)
     # R16
-    m = re.search(r"if let Some\((\w+)\) = self\.functions_call_tree\.get_mut\((\w+)\) \{\s*\1\.push\(([^;]+?)\);\s*\} else \{", blk.text)
+    m = re.search(r"if let Some\((\w+)\) = self\.functions_call_tree\.get_mut\((\w+)\) \{", blk.text)
     if not m:
-        raise Undecided("recording block is not `if let Some(v) = self.functions_call_tree.get_mut(f) { v.push(X); } else {…}`")
-    v, k, x = m.group(1), m.group(2), m.group(3)
-    blk.text = blk.text[:m.start()] + ("if self.functions_call_tree.contains_key(%(k)s) { let ghost __t0 = self.functions_call_tree@; let mut %(v)s = self.functions_call_tree.remove(%(k)s).unwrap(); "
-                                       "%(v)s.push(%(x)s); self.functions_call_tree.insert(%(k)s.clone(), %(v)s); "
-                                       "proof { assert(self.functions_call_tree@ =~= __t0.insert(*%(k)s, self.functions_call_tree@[*%(k)s])); } } else {") % {"v": v, "k": k, "x": x} + blk.text[m.end():]
+        raise Undecided("recording block is not `if let Some(v) = self.functions_call_tree.get_mut(f) { … } else {…}`")
+    from vf.rustcut import mask, match_brace
+    mk = mask(blk.text)
+    ob = m.end() - 1
+    cb = match_brace(mk, ob, "{", "}")
+    me = re.match(r"\s*else\s*\{", blk.text[cb + 1:])
+    if not me:
+        raise Undecided("recording block: `if let Some(v) = ….get_mut(f) {…}` has no else branch")
+    v, k = m.group(1), m.group(2)
+    body = blk.text[ob + 1:cb]
+    # Vec<String>::contains on the entry (any use of it other than push / contains is outside the shim)
+    body = re.sub(r"\b%s\.contains\((\w+)\)" % re.escape(v), r"vec_contains_string(&%s, \1)" % v, body)
+    if re.search(r"\b%s\.(?!push\()\w+\(" % re.escape(v), body):
+        raise Undecided("recording block uses the call-tree entry through a method other than push / contains")
+    blk.text = blk.text[:m.start()] + ("if self.functions_call_tree.contains_key(%(k)s) { let ghost __t0 = self.functions_call_tree@; let mut %(v)s = self.functions_call_tree.remove(%(k)s).unwrap(); let ghost __v0 = %(v)s@; "
+                                       "%(body)s "
+                                       "proof { if %(v)s@.len() == __v0.len() + 1 && %(v)s@.subrange(0, __v0.len() as int) =~= __v0 { assert(%(v)s@ =~= __v0.push(%(v)s@.last())); lemma_push_lists(__v0, %(v)s@, %(v)s@.last()); } "
+                                       "else if %(v)s@ == __v0 { lemma_same_lists(__v0); } } "
+                                       "self.functions_call_tree.insert(%(k)s.clone(), %(v)s); "
+                                       "proof { assert(self.functions_call_tree@ =~= __t0.insert(*%(k)s, self.functions_call_tree@[*%(k)s])); } } else {") % {"v": v, "k": k, "body": body} + blk.text[cb + 1 + me.end():]
     blk.log.append("R16 get_mut/push -> contains_key/remove/push/insert")
     blk.sub(r"\bvar\.to_string\(\)", "string_of(var)", "R11 to_string", expect=(0, 4))
     blk.sub(r"\"ROM_SELECT\"\.into\(\)", '"ROM_SELECT".to_string()', "R3-into", expect=(0, 4))
@@ -126,6 +153,12 @@ def build(repo):
         broadcast use vstd::std_specs::hash::group_hash_axioms;
         proof { axiom_string_key_model(); reveal_strlit("Call"); }
 %s
+        proof {
+            if self.current_function is Some && self.functions_call_tree@.contains_key(self.current_function->Some_0) {
+                let e = self.functions_call_tree@[self.current_function->Some_0]@;
+                if e.len() > 0 { assert(e[e.len() - 1]@ == e.last()@); }
+            }
+        }
         Ok(ExprType::Nothing)
     }
 """ % blk.text
